@@ -35,8 +35,8 @@ Lemma ext_nil_grow g g' : ext g g' [] -> grow g g'.
 Proof.
   intros He. constructor; [apply (ex_label _ _ _ He)|].
   intros a x b Hv. apply (gv_transfer g g' a (fun y => sg_alive g y = true)).
-  - apply (ex_label _ _ _ He).
-  - intros y bs Hy _ H. rewrite (ex_out _ _ _ He y Hy) by (intros []). exists bs.
+  - intros y Hy. left. now apply (ex_label _ _ _ He).
+  - intros y bs Hy _ _ H. rewrite (ex_out _ _ _ He y Hy) by (intros []). exists bs.
     split; [|split; reflexivity]. apply (Forall2_kept g g' a _ _ _ (fun c b Hc => GV_alive _ _ _ _ Hc) H).
   - now apply (GV_alive g a x b).
   - exact Hv.
@@ -185,8 +185,8 @@ Lemma balance_grow g g' nx : sg_label g nx = Some GOr -> ext g g' [nx] ->
 Proof.
   intros Hl He Hs. constructor; [apply (ex_label _ _ _ He)|].
   intros a x b Hv. apply (gv_transfer g g' a (fun y => sg_alive g y = true)).
-  - apply (ex_label _ _ _ He).
-  - intros y bs Hy Hly H.
+  - intros y Hy. left. now apply (ex_label _ _ _ He).
+  - intros y bs Hy _ Hly H.
     pose proof (Forall2_kept g g' a _ _ _ (fun c b Hc => GV_alive _ _ _ _ Hc) H) as H'.
     destruct (Nat.eq_dec y nx) as [->|Hne].
     + destruct (subst_rel_vals g' nx a _ _ bs Hs H') as [bs' [H1 H2]].
